@@ -77,7 +77,7 @@ def gen_case(streams: Streams, tier: str) -> dict:
         if k.startswith('seq_'):
             op['p'] = ops_rng.randrange(4)
         if k == 'save':
-            op['v'] = values.gen_value(vals, max_depth=3, special_floats=True)
+            op['v'] = values.gen_value(vals, max_depth=3, special_floats=True, partial_objects=True)
             op['indent'] = ops_rng.choice([None, None, 1, 2])
         if k == 'save_txt':
             op['s'] = vals.choice(values.STRINGS)
@@ -92,7 +92,7 @@ def gen_case(streams: Streams, tier: str) -> dict:
                 ops.append(op)
                 for _ in range(ops_rng.randint(1, 4)):
                     ops.append({'op': 'seq_add', 'p': op['p'],
-                                'v': values.gen_value(vals, max_depth=2),
+                                'v': values.gen_value(vals, max_depth=2, partial_objects=True),
                                 's': vals.choice(RAW_RECORDS)})
                     if ops_rng.random() < 0.3:
                         ops.append({'op': 'seq_flush', 'p': op['p']})
@@ -102,10 +102,10 @@ def gen_case(streams: Streams, tier: str) -> dict:
                 ops.append({'op': 'seq_read', 'p': op['p']})
                 continue
         if k == 'seq_add':
-            op['v'] = values.gen_value(vals, max_depth=2, special_floats=True)
+            op['v'] = values.gen_value(vals, max_depth=2, special_floats=True, partial_objects=True)
             op['s'] = vals.choice(RAW_RECORDS)
         if k == 'value_roundtrip':
-            op['v'] = values.gen_value(vals, max_depth=3)
+            op['v'] = values.gen_value(vals, max_depth=3, partial_objects=True)
             op['how'] = ops_rng.choice(['json', 'json_str', 'pickle', 'deepcopy', 'copy'])
         if k == 'listdir':
             op['d'] = ops_rng.choice(['/simdisk', '/simdisk/d1', '/mem/', '/mem/e', '/mem/x'])
@@ -458,7 +458,7 @@ def _run(case, disk, seams):
                                 break
                             continue
                         try:
-                            got = pg.from_json_str(raw[i])
+                            got = pg.from_json_str(raw[i], allow_partial=True)
                         except Exception as e:  # pylint: disable=broad-except
                             bad('C05.sequence', f'{fs_kind(p)}|undecodable',
                                 f'acknowledged record {i} of {p!r} cannot be decoded: {e!r}', step)
@@ -474,9 +474,9 @@ def _run(case, disk, seams):
                 v = values.build(op['v'])
                 how = op['how']
                 if how == 'json':
-                    got = pg.from_json(pg.to_json(v))
+                    got = pg.from_json(pg.to_json(v), allow_partial=True)
                 elif how == 'json_str':
-                    got = pg.from_json_str(pg.to_json_str(v))
+                    got = pg.from_json_str(pg.to_json_str(v), allow_partial=True)
                 elif how == 'pickle':
                     got = pickle.loads(pickle.dumps(v))
                 elif how == 'deepcopy':
